@@ -1,22 +1,24 @@
 ------------------------------ MODULE MC_R2C ------------------------------
 (***************************************************************************)
 (* Model checking / generation driver for R2C (C19).  The state is one     *)
-(* input case; the cases form a tree (so that TLC's workers share them):   *)
-(*   root -> cube <<>> -> cube <<v>> -> ...   all x in {-1,0,1}^N, N<=MaxCube *)
-(*        -> basisN N -> basis (N, j)         unit vectors, N <= MaxBasis   *)
-(*        -> toneN N  -> tone (N, w, ph)      all integer w in 0..N/2       *)
-(*        -> pairN N  -> pair (x1, x2, k)     additivity / homogeneity      *)
+(* input case `st` and `out`, what the operational definition computes for *)
+(* it (computed once, when the case is generated).  The cases form a tree  *)
+(* so that TLC's workers share them:                                       *)
+(*   root -> cube <<>> -> cube <<v>> -> ...  all x in {-1,0,1}^N, N <= MaxCube *)
+(*        -> basisN N -> basis (N, j)        unit vectors, N <= MaxBasis    *)
+(*        -> toneN N  -> tone (N, w, ph)     all integer w in 0..N/2        *)
+(*        -> pairN N  -> pair (x1, x2, k)    additivity / homogeneity       *)
 (*        -> arrR r   -> array (shape, ax, seed)   rank 1..3, every axis    *)
-(* Every invariant is one clause of the property, evaluated with the        *)
-(* operational definition R2C.                                              *)
+(* Every invariant is one clause of the property.                           *)
 (***************************************************************************)
-EXTENDS R2C, TLC
-CONSTANTS MaxCube, MaxBasis, MaxTone, MaxArrN, Wrong
+EXTENDS R2C
+CONSTANTS MaxCube, MaxBasis, MaxTone, MaxArrN, Phases, Wrong
 
-VARIABLE st
+VARIABLES st, out, basis
+vars == <<st, out, basis, tw>>
 Vals == {-1, 0, 1}
-Phases == {RQ(0, 1), RQ(1, 8), RQ(1, 3), RQ(-1, 4), RQ(7, 16)}
-BasisTab == [N \in 1..MaxBasis |-> [j \in 1..N |-> R2C(Unit(N, j))]]
+Q_Phases == {RQ(0, 1), RQ(1, 8), RQ(-1, 3)}                       \* tone phases, cycles
+F_Phases == {RQ(0, 1), RQ(1, 8), RQ(-1, 3), RQ(-1, 4), RQ(7, 16), RQ(1, 2)}
 
 \* deterministic pseudo-random small integers for array cases
 ArrVal(p, seed) == ((p * 7 + seed * 3 + (p \div 3) + (p \div 5)) % 3) - 1
@@ -26,10 +28,43 @@ ArrShapes(r) ==
   ELSE {<<a, b, c>> : a \in 0..MaxArrN, b \in 1..2, c \in 1..2}
        \cup {<<b, a, c>> : a \in 0..MaxArrN, b \in 1..2, c \in 1..2}
        \cup {<<b, c, a>> : a \in 0..MaxArrN, b \in 1..2, c \in 1..2}
-Pairs(N) == {<<a, b, k>> \in (1..N) \X (1..N) \X {-3, 2} : TRUE}
+Pairs(N) == (1..N) \X (1..N) \X {-3, 2}
 
-Init == st = [kind |-> "root"]
-Next ==
+Ints(x) == Strict([i \in 1..Len(x) |-> FFromInt(x[i])])
+HasInput(s) == s.kind \in {"cube", "basis", "tone"}
+InputOf(s) == CASE s.kind = "cube" -> Ints(s.x)
+                [] s.kind = "basis" -> Unit(s.N, s.j)
+                [] s.kind = "tone" -> ToneIn(s.N, s.w, s.ph)
+ArrFlat(s) == Strict([p \in 1..Prod(s.shape) |-> FFromInt(ArrVal(p, s.seed))])
+
+(* negative model (Neg_R2C_weight.cfg, Wrong = TRUE): the weight of bin N//2 is always 1, *)
+(* which is wrong for odd N                                                               *)
+WrongAnalyticOf(X) ==
+  LET N == Len(X)
+      Y == Strict([k \in 1..N |-> CScaleInt(X[k], IF k - 1 = N \div 2 /\ N > 1 THEN 1 ELSE HWeight(N, k - 1))])
+      y == SDft(Y, 1, TW[N])
+  IN IF N = 0 THEN <<>> ELSE Strict([n \in 1..N |-> CDivSmall(y[n], N)])
+
+None == [kind |-> "none"]
+Compute(s) ==
+  IF HasInput(s)
+  THEN LET x == InputOf(s)
+           X == Spectrum(x)
+           a == IF Wrong THEN WrongAnalyticOf(X) ELSE AnalyticOf(X)
+       IN [kind |-> "vec", x |-> x, X |-> X, a |-> a,
+           S |-> IF Len(a) = 0 THEN <<>> ELSE SDft(a, -1, TW[Len(a)]),
+           y |-> IF Len(x) = 0 THEN <<>> ELSE R2COf(a)]
+  ELSE IF s.kind = "pair"
+  THEN [kind |-> "pair", y |-> R2C(Strict([i \in 1..Len(s.x1) |-> FFromInt(s.x1[i] + s.k * s.x2[i])])),
+        y1 |-> R2C(Ints(s.x1)), y2 |-> R2C(Ints(s.x2))]
+  ELSE IF s.kind = "array"
+  THEN [kind |-> "array", flat |-> ArrFlat(s), r |-> R2CAxis(s.shape, ArrFlat(s), s.ax)]
+  ELSE None
+
+Init == /\ st = [kind |-> "root"] /\ out = None
+        /\ tw = TwTable
+        /\ basis = Strict([N \in 1..MaxCube |-> Strict([j \in 1..N |-> R2C(Unit(N, j))])])
+Step ==
   \/ /\ st.kind = "root"
      /\ \/ st' = [kind |-> "cube", x |-> <<>>]
         \/ \E N \in 1..MaxBasis : st' = [kind |-> "basisN", N |-> N]
@@ -49,39 +84,20 @@ Next ==
   \/ /\ st.kind = "arrR"
      /\ \E sh \in ArrShapes(st.r) : \E ax \in 1..st.r : \E seed \in 0..1 :
           st' = [kind |-> "array", shape |-> sh, ax |-> ax, seed |-> seed]
-Spec == Init /\ [][Next]_st
+Next == Step /\ out' = Compute(st') /\ UNCHANGED <<tw, basis>>
+Spec == Init /\ [][Next]_vars
 
-\* the input sequence (Fix) of a one-dimensional case
-HasInput == st.kind \in {"cube", "basis", "tone"}
-Ints(x) == [i \in 1..Len(x) |-> FFromInt(x[i])]
-Input == CASE st.kind = "cube" -> Ints(st.x)
-           [] st.kind = "basis" -> Unit(st.N, st.j)
-           [] st.kind = "tone" -> ToneIn(st.N, st.w, st.ph)
-ArrFlat == [p \in 1..Prod(st.shape) |-> FFromInt(ArrVal(p, st.seed))]
-
-(* negative model: the weight of bin N//2 is always 1 (wrong for odd N) *)
-\* used only by Neg_R2C.cfg through Wrong = TRUE
-WrongR2C(x) ==
-  LET N == Len(x)
-      X == Spectrum(x)
-      Y == [k \in 1..N |-> CScaleInt(X[k], IF k - 1 = N \div 2 /\ N > 1 THEN 1 ELSE HWeight(N, k - 1))]
-      y == DftW(Y, 1, TW[N])
-      m == [n \in 1..N |-> MulMinusIPow(CDivSmall(y[n], N), n - 1)]
-  IN [j \in 1..OutLen(N) |-> m[2 * j - 1]]
-
-InvLen == HasInput => LenClause(Input)
-InvRealPart ==
-  HasInput => IF Wrong
-              THEN LET y == WrongR2C(Input)
-                   IN \A m \in 0..(Len(y) - 1) : FClose(MulInt(y[m + 1].re, Sgn(m)), Input[2 * m + 1], Tol)
-              ELSE RealPartClause(Input)
-InvAnalytic == HasInput => AnalyticClause(Input)
-InvLinear == st.kind = "cube" /\ Len(st.x) > 0 => LinearClause(st.x, BasisTab[Len(st.x)])
-InvAdd == st.kind = "pair" => AddClause(Ints(st.x1), Ints(st.x2), st.k)
-InvTone == st.kind = "tone" => ToneClause(st.N, st.w, st.ph)
+IsVec == out.kind = "vec"
+InvLen == IsVec => LenRel(out.x, out.y)
+InvRealPart == IsVec => RealPartRel(out.x, out.y)
+InvAnalytic == IsVec => AnalyticRel(out.x, out.a, out.S, out.X)
+InvMix == IsVec => MixRel(out.a, out.y)
+InvLinear == IsVec /\ st.kind = "cube" /\ Len(st.x) > 0 => LinearRel(st.x, out.y, basis[Len(st.x)])
+InvAdd == out.kind = "pair" => AddRel(out.y, out.y1, out.y2, st.k)
+InvTone == IsVec /\ st.kind = "tone" => ToneRel(st.N, st.w, st.ph, out.y)
 InvDtype == st.kind = "root" => DtypeClause
-InvAxis == st.kind = "array" /\ Len(st.shape) = 2 => AxisClause(st.shape, ArrFlat)
-InvArrayLen == st.kind = "array" =>
-  LET r == R2CAxis(st.shape, ArrFlat, st.ax)
-  IN r.shape = [st.shape EXCEPT ![st.ax] = (@ + 1) \div 2] /\ Len(r.flat) = Prod(r.shape)
+InvAxis == out.kind = "array" /\ Len(st.shape) = 2 /\ st.ax = 2 => AxisRel(st.shape, out.flat, out.r)
+InvArrayLen == out.kind = "array" =>
+  /\ out.r.shape = [st.shape EXCEPT ![st.ax] = (@ + 1) \div 2]
+  /\ Len(out.r.flat) = Prod(out.r.shape)
 =============================================================================
